@@ -742,6 +742,10 @@ class Interp:
                 ctx.bounds[k] = [x, x]
                 ctx.note('%s == %d' % (cond.src(), x))
             else:
+                # the default arm is taken only by a value that equals none of the labels
+                for _idx, vals, _is_def in arms:
+                    for y in vals:
+                        ctx.neq.setdefault(k, set()).add(y)
                 ctx.note('%s -> default' % cond.src())
             return idx
         raise Unsupported('switch on %r at %s:%d' % (v, self.unit.name, cond.line))
